@@ -1,6 +1,6 @@
 SPECIFICATION TraceSpec
 CONSTANTS
-  EPs = {"execv2", "execv1", "graffiti", "builderbid", "proposalbest", "proposer", "attester", "aggregator", "syncmessenger", "syncaggregator", "mergeduties", "cacheevents", "submitclassify"}
+  EPs = {"execv2", "execv1", "execmutate", "graffiti", "builderbid", "proposalbest", "proposer", "attester", "aggregator", "syncmessenger", "syncaggregator", "mergeduties", "cacheevents", "submitclassify"}
 INVARIANTS TypeOK KeepsRunning EndsProperly
 CONSTRAINT HWM
 POSTCONDITION TraceAccepted
